@@ -33,7 +33,7 @@ Paths == {
 Ops == [ delete |-> {"-"},
          retype |-> {"string", "int", "negint", "bool", "list", "map", "null", "float"},
          logscript |-> {"valid", "evalfail_always", "const_div0", "traffic_dependent_div", "traffic_dependent_index", "nonstring", "syntax"},
-         startup |-> {"no_slash", "wildcard", "bad_header", "unbindable", "wrong_pem", "u64max"},
+         startup |-> {"no_slash", "wildcard", "bad_header", "unbindable", "wrong_pem", "u64max", "zero"},
          value  |-> {"empty", "unknown_type", "deny", "huge", "bad_addr", "bad_port", "bad_path", "bad_script", "nonbool_script", "unknown_ref", "self_ref", "dup_name", "nul"} ]
 (* values that are well-formed for the loader's parser but that a later stage chokes on: a router prefix without      *)
 (* its slash or with a wildcard, a header value with a line break, an address that cannot be bound, a PEM file of       *)
@@ -43,11 +43,12 @@ StartupApplies(p, x) ==
      [] x = "bad_header" -> p = "metrics.cors"
      [] x = "unbindable" -> p \in {"metrics.bind", "listeners.0.bind", "listeners.4.bind"}
      [] x = "u64max" -> p \in {"listeners.2.auth.cache.timeout", "listeners.5.maxUdpSocket", "timeouts.idle", "timeouts.udp", "metrics.historySize", "ioParams.bufferSize"}   \* the largest number the field's type takes
+     [] x = "zero" -> p \in {"listeners.2.auth.cache.timeout", "listeners.5.maxUdpSocket", "timeouts.idle", "timeouts.udp", "metrics.historySize", "ioParams.bufferSize", "connectors.1.port"}
      [] x = "wrong_pem" -> p \in {"listeners.1.tls.cert", "listeners.1.tls.key", "listeners.1.tls.client.ca", "connectors.1.tls.ca", "connectors.1.tls.auth.cert", "connectors.1.tls.auth.key", "listeners.4.tls.key"}
 Rows == {<<p, o, x>> \in Paths \X (DOMAIN Ops) \X {"-", "string", "int", "negint", "bool", "list", "map", "null", "float", "empty", "unknown_type", "deny",
                                                   "huge", "bad_addr", "bad_port", "bad_path", "bad_script", "nonbool_script", "unknown_ref", "self_ref", "dup_name", "nul",
                                                   "valid", "evalfail_always", "const_div0", "traffic_dependent_div", "traffic_dependent_index", "nonstring", "syntax",
-                                                  "no_slash", "wildcard", "bad_header", "unbindable", "wrong_pem", "u64max"} :
+                                                  "no_slash", "wildcard", "bad_header", "unbindable", "wrong_pem", "u64max", "zero"} :
            x \in Ops[o] /\ ((o = "logscript") <=> (p = "accessLog.format")) /\ (o = "startup" => StartupApplies(p, x))}
 AllowedLoad == {"accepted", "rejected"}        \* "panic", "hang", a signal: violations
 
